@@ -107,7 +107,7 @@ Lemma hinv_qunlink : forall D h kept q rest c sl,
   hinv D h -> qchain h (r_queue (rx h)) (kept ++ q :: rest) -> findq h q = Some c -> qslot_at kept sl ->
   hinv D (qunlink h sl q (q_next c)) /\
   qchain (qunlink h sl q (q_next c)) (r_queue (rx (qunlink h sl q (q_next c)))) (kept ++ rest) /\
-  wins (qunlink h sl q (q_next c)) = wins h /\
+  (wins (qunlink h sl q (q_next c)) = wins h /\ nextw (qunlink h sl q (q_next c)) = nextw h) /\
   (forall a ca, findq (qunlink h sl q (q_next c)) a = Some ca ->
      exists ca0, findq h a = Some ca0 /\ q_win ca = q_win ca0 /\ q_parent ca = q_parent ca0 /\ q_change ca = q_change ca0) /\
   (forall a, In a kept -> exists ca ca0, findq (qunlink h sl q (q_next c)) a = Some ca /\ findq h a = Some ca0 /\ q_win ca = q_win ca0).
@@ -167,7 +167,7 @@ Proof.
         exists cz. auto 10.
       + rewrite Hq_other in Hfa; auto; [eauto 10|]. intros z' Ez'. inversion Ez'; subst z'. exact Ez.
     - rewrite Hq_other in Hfa; auto; [eauto 10|]. intros z' Ez'. discriminate. }
-  split; [|split; [exact Hnewchain|split; [exact Hw|split; [exact Hold|]]]].
+  split; [|split; [exact Hnewchain|split; [split; [exact Hw|exact Hnw]|split; [exact Hold|]]]].
   - eapply hinv_set_queue; eauto.
     + intros a Ha. rewrite Hnq. apply (hi_nextq D h HI). destruct (findq h' a) as [ca|] eqn:Hfa; [|congruence].
       destruct (Hold a ca Hfa) as [ca0 [H0 _]]. congruence.
@@ -239,7 +239,7 @@ Lemma purge_loop_spec : forall D w fuel h kept rest sl cr,
   qchain h (r_queue (rx h)) (kept ++ rest) -> qslot_at kept sl ->
   (forall a ca x, In a kept -> findq h a = Some ca -> q_win ca = Some x -> ~ anc h x w) ->
   hoare (fun h1 => h1 = h) (purge_loop fixed fuel root sl w)
-        (fun _ h' => hinv D h' /\ wins h' = wins h /\ unqueued h' w /\
+        (fun _ h' => hinv D h' /\ (wins h' = wins h /\ nextw h' = nextw h) /\ unqueued h' w /\
                      (forall q cq, findq h' q = Some cq -> exists cq0, findq h q = Some cq0 /\ q_win cq = q_win cq0)).
 Proof.
   intros D w. induction fuel as [|f IH]; intros h kept rest sl cr HI Hr Hlw Hc Hsl Hkept h1 E; subst h1; [cbn; exact I|].
@@ -249,7 +249,7 @@ Proof.
   assert (ql = kept ++ rest) by (eapply qchain_fun; eauto). subst ql.
   destruct rest as [|q rest].
   - (* the end of the queue *)
-    cbn. split; [exact HI|]. split; [reflexivity|]. split; [|eauto].
+    cbn. split; [exact HI|]. split; [split; reflexivity|]. split; [|eauto].
     intros a ca x Hfa Hx. rewrite app_nil_r in Hq2. apply (Hkept a ca x); auto. apply Hq2. congruence.
   - assert (Hinq : In q (kept ++ q :: rest)) by (apply in_or_app; right; left; reflexivity).
     pose proof (qchain_live h _ _ Hc q Hinq) as Hlq. destruct (findq h q) as [c|] eqn:Hfq; [|congruence].
@@ -268,7 +268,7 @@ Proof.
       unfold bind in Hrun. unfold bind at 1. unfold bind at 1.
       destruct (write_qslot root sl (q_next c) h) as [u h1| |] eqn:Hws; try discriminate.
       rewrite Hrun.
-      destruct (hinv_qunlink D h kept q rest c sl HI Hc Hfq Hsl) as [HI' [Hc' [Hw' [Hold' Hkept']]]].
+      destruct (hinv_qunlink D h kept q rest c sl HI Hc Hfq Hsl) as [HI' [Hc' [[Hw' Hnw'] [Hold' Hkept']]]].
       set (h' := qunlink h sl q (q_next c)) in *.
       assert (Fw : forall a, findw h' a = findw h a) by (intro; unfold findw; rewrite Hw'; reflexivity).
       assert (Hr' : findw h' root = Some cr) by (rewrite Fw; exact Hr).
@@ -279,7 +279,7 @@ Proof.
         apply (Hkept a ca0 x0 Ha H0); [congruence|]. eapply anc_same_wins; [|exact Hanc]. symmetry. exact Hw'. }
       specialize (IH h' kept rest sl cr HI' Hr' Hlw' Hc' Hsl Hk' h' eq_refl).
       destruct (purge_loop fixed f root sl w h') as [u2 h2| |]; [|contradiction|exact I].
-      destruct IH as [HI2 [Hw2 [Hu2 Hold2]]]. split; [exact HI2|]. split; [congruence|]. split; [exact Hu2|].
+      destruct IH as [HI2 [[Hw2 Hnw2] [Hu2 Hold2]]]. split; [exact HI2|]. split; [split; congruence|]. split; [exact Hu2|].
       intros a ca Hfa. destruct (Hold2 a ca Hfa) as [ca1 [H1 E1]].
       destruct (Hold' a ca1 H1) as [ca0 [H0 [E0 _]]]. exists ca0. split; auto. congruence.
     + (* keep it *)
@@ -297,7 +297,7 @@ Qed.
 Lemma purge_spec : forall D fuel w h,
   hinv D h -> findw h w <> None ->
   hoare (fun h1 => h1 = h) (purge fixed fuel w)
-        (fun _ h' => hinv D h' /\ wins h' = wins h /\ unqueued h' w /\
+        (fun _ h' => hinv D h' /\ (wins h' = wins h /\ nextw h' = nextw h) /\ unqueued h' w /\
                      (forall q cq, findq h' q = Some cq -> exists cq0, findq h q = Some cq0 /\ q_win cq = q_win cq0)).
 Proof.
   intros D fuel w h HI Hlw h1 E. subst h1. unfold purge. cbn [v_close_nopurge fixed].
@@ -317,6 +317,6 @@ Proof.
     + left. auto.
     + intros a ca x [].
     + reflexivity.
-  - apply Pos.eqb_neq in Et. cbn. split; [exact HI|]. split; [reflexivity|]. split; [|eauto].
+  - apply Pos.eqb_neq in Et. cbn. split; [exact HI|]. split; [split; reflexivity|]. split; [|eauto].
     eapply unqueued_off_tree; eauto.
 Qed.
